@@ -27,6 +27,7 @@ OBLIGATIONS = [
     "Grog.C01.build_eq_clean",
     "Grog.C01.hit_same_state",
     "Grog.C01.alias_skipped_witness",
+    "Grog.C01.dir_restore_exact_and_stale_witness",
 ]
 ASSUMPTIONS = [
     "cache key injective on key-states (C09, repaired by f3e7529), output-hash computations injective (C09.outHash_inj)",
@@ -35,8 +36,8 @@ ASSUMPTIONS = [
     "generated commands are deterministic functions of declared inputs and dependency outputs (the property's premise)",
 ]
 
-FAMILIES_QUICK = [("edits", 12), ("alias", 8), ("shift", 6), ("tamper", 6), ("wipe", 4), ("taint", 3), ("disabled", 4), ("nocache", 3)]
-FAMILIES_THOROUGH = [("edits", 200), ("alias", 120), ("shift", 80), ("tamper", 120), ("taint", 40), ("disabled", 60), ("nocache", 40)]
+FAMILIES_QUICK = [("edits", 8), ("alias", 6), ("shift", 4), ("tamper", 5), ("dirs", 6), ("swap", 5), ("shared", 5), ("wipe", 3), ("taint", 2), ("disabled", 3), ("nocache", 2)]
+FAMILIES_THOROUGH = [(f, n * 18) for f, n in FAMILIES_QUICK]
 
 
 def signature_of(h):
@@ -52,6 +53,7 @@ def run(ctx):
             hists.append(H.gen_history(ctx.rng, fam, nsteps=None if quick else ctx.rng.randint(3, 7)))
     for _ in range(2 if quick else 20):
         hists.append(H.gen_swap(ctx.rng, nocache=True))
+        hists.append(H.gen_swap(ctx.rng, nocache=False))
         hists.append(H.gen_globout(ctx.rng))
     ctx.coverage["rule"] = ("layered DAGs of 2-6 targets (file/dir outputs, aliases incl. chains, globs with excludes, 1-2 targets per package), "
                             "histories of 2-5 edit/tamper/taint steps each followed by a build with a random selection; families: "
